@@ -190,6 +190,25 @@ class Verifier:
             o.time_s = round(o.time_s or dt / max(1, len(out)), 4)
         return out
 
+    def _goal(self, gex, text, est, ob, inputs, c, case):
+        """Evaluate a postcondition as a goal: quantifiers in positive position are skolemised,
+        and obligations raised while reading lazily evaluated elements become safety
+        obligations under the reader's hypotheses."""
+        from .symexec import SINK
+        gex.polarity = 1
+        SINK.append(est)
+        nchk = len(est.lazy_checks)
+        try:
+            g = gex.eval_cl(text, est)
+        finally:
+            SINK.pop()
+            gex.polarity = 0
+        for lab, h2, f2 in est.lazy_checks[nchk:]:
+            o = ob('safety', 'in-body obligations: callee preconditions, index bounds, divisors')
+            self._discharge(o, est.hyps() + list(h2), f2, inputs, f'{lab} (element read by the '
+                            'postcondition)', c, case)
+        return g
+
     def _param_nodes(self, fdef):
         a = fdef.args
         return [x.arg for x in a.posonlyargs + a.args + a.kwonlyargs]
@@ -274,15 +293,13 @@ class Verifier:
                 gex.goal_mode = True
                 gex.cur_class = c.cls
                 try:
-                    g = gex.eval_cl(text, est)
+                    g = self._goal(gex, text, est, ob, inputs, c, case)
                 except Unsupported as e:
                     o.status = LOST if o.status == DISCHARGED else o.status
                     o.detail += f'postcondition not evaluable on this path: {e}; '
                     continue
                 # facts added while evaluating the goal (sqrt axioms etc.) are sound hypotheses
                 hyps = pst.hyps() + est.facts[len(pst.facts):]
-                for lab2, h2, f2 in est.checks:
-                    pass
                 self._discharge(o, hyps, g, inputs, f'{label} [{case_tag}]', c, case)
         return (True, normal)
 
@@ -367,7 +384,7 @@ class Verifier:
                     gex.cur_class = c.cls
                     nf = len(est.facts)
                     try:
-                        g = gex.eval_cl(text, est)
+                        g = self._goal(gex, text, est, ob, inputs, c, case)
                     except Unsupported as e:
                         o.status = LOST if o.status == DISCHARGED else o.status
                         o.detail += f'postcondition not evaluable on this path pair: {e}; '
@@ -452,7 +469,7 @@ class Verifier:
                 gex = Executor(self.reg, consts)
                 gex.goal_mode = True
                 gex.cur_class = c.cls
-                g = gex.eval_cl(text, est)
+                g = self._goal(gex, text, est, ob, inputs, c, case)
                 hyps = pst.hyps() + est.facts[len(pst.facts):]
                 self._discharge(o, hyps, g, inputs, f'{label} [{case_tag}]', c, case)
         return (True, normal)
@@ -521,7 +538,7 @@ class Verifier:
                 gex = Executor(self.reg, consts)
                 gex.goal_mode = True
                 gex.cur_class = c.cls
-                g = gex.eval_cl(text, est)
+                g = self._goal(gex, text, est, ob, inputs, c, case)
                 hyps = s2.hyps() + est.facts[len(s2.facts):]
                 self._discharge(o, hyps, g, inputs, f'{label} [{case_tag}]', c, case)
         return (True, normal)
